@@ -47,27 +47,30 @@ VarsOf(e) == CASE e.op = "var" -> {e.n}
 \* --- values of bindings --------------------------------------------------
 \* -> [k |-> "ok", v] | [k |-> "err"] | [k |-> "oom"]
 StrVal(bytes) == LET u == Utf8Decode(bytes) IN IF u.ok THEN [k |-> "ok", v |-> Str(u.s)] ELSE [k |-> "oom"]
-\* newJSONInputIter(text).Next(): the FIRST value of the text; an empty text gives null
-JsonVal(bytes) == LET r == DecodeNext(bytes, 1) IN
-                  CASE r.k = "ok" -> [k |-> "ok", v |-> r.v]
-                    [] r.k = "end" -> [k |-> "ok", v |-> Null]
-                    [] r.k = "oom" -> [k |-> "oom"]
-                    [] OTHER -> [k |-> "err"]
+\* The text of --argjson / --jsonargs must be ONE JSON value (strict).  cli.go takes newJSONInputIter(text).Next():
+\* the FIRST value of the text, whatever follows, and null for a blank text (lenient = what the code does; the
+\* difference is the known finding F-C16-argjson-lenient).
+JsonVal(bytes, strict) ==
+  LET r == DecodeNext(bytes, 1) IN
+  CASE r.k = "ok" -> IF strict /\ SkipWs(bytes, r.j) <= Len(bytes) THEN [k |-> "err"] ELSE [k |-> "ok", v |-> r.v]
+    [] r.k = "end" -> IF strict THEN [k |-> "err"] ELSE [k |-> "ok", v |-> Null]
+    [] r.k = "oom" -> [k |-> "oom"]
+    [] OTHER -> [k |-> "err"]
 SlurpVal(fs, f) == IF ~Has(fs, f) THEN [k |-> "err"]
                    ELSE LET a == AllDocs(fs[f], 1, <<>>) IN
                         CASE a.fin = "end" -> [k |-> "ok", v |-> Arr(a.vs)] [] a.fin = "oom" -> [k |-> "oom"] [] OTHER -> [k |-> "err"]
 RawVal(fs, f) == IF ~Has(fs, f) THEN [k |-> "err"] ELSE StrVal(fs[f])
 
-BindVal(b, rec) ==
+BindVal(b, rec, strict) ==
   IF b.val.k # "word" \/ b.name.k # "word" THEN [k |-> "oom"]
   ELSE CASE b.flag = "arg" -> StrVal(rec.words[b.val.w])
-         [] b.flag = "argjson" -> JsonVal(rec.words[b.val.w])
+         [] b.flag = "argjson" -> JsonVal(rec.words[b.val.w], strict)
          [] b.flag = "slurpfile" -> SlurpVal(rec.fs, b.val.w)
          [] b.flag = "rawfile" -> RawVal(rec.fs, b.val.w)
-PosVal1(p, rec) ==
+PosVal1(p, rec, strict) ==
   IF p = Nil THEN [k |-> "ok", v |-> Null]
   ELSE IF p.tok.k # "word" THEN [k |-> "oom"]
-  ELSE IF p.mode = "args" THEN StrVal(rec.words[p.tok.w]) ELSE JsonVal(rec.words[p.tok.w])
+  ELSE IF p.mode = "args" THEN StrVal(rec.words[p.tok.w]) ELSE JsonVal(rec.words[p.tok.w], strict)
 
 \* the first binding that fails decides ("err" -> exit 5); "oom" anywhere -> undecided
 RECURSIVE FirstBad(_, _)
@@ -78,14 +81,14 @@ MkObj(names, vals, i, acc) == IF i > Len(names) THEN acc ELSE MkObj(names, vals,
 
 FileName(tok, rec) == IF rec.words[tok.w] = <<45>> THEN "-" ELSE tok.w
 
-CliRun(rec) ==
+CliRun(rec, strict) ==
   LET ps == ParseFlags(ParseInit, rec.argv) IN
   IF ps.err # "none" THEN Exp(2, <<>>, 1)                                 \* flagParseError
   ELSE
   LET named == Named(ps)
-      nvals == [i \in 1..Len(named) |-> BindVal(named[i], rec)]
+      nvals == [i \in 1..Len(named) |-> BindVal(named[i], rec, strict)]
       pos == Positional(ps)
-      pvals == [i \in 1..Len(pos) |-> PosVal1(pos[i], rec)]
+      pvals == [i \in 1..Len(pos) |-> PosVal1(pos[i], rec, strict)]
       bad == FirstBad(nvals \o pvals, 1)
   IN
   IF bad = "oom" THEN Undecided("binding")
@@ -117,12 +120,15 @@ CliRun(rec) ==
   ELSE LET rs == Process(RunInit(m, files, rec.fs, rec.stdin), prog, vars) IN
        IF rs.oom THEN Undecided("value") ELSE Exp(IF rs.nerr > 0 THEN 5 ELSE 0, rs.out, rs.nerr)
 
+Matches(e, rec) == e.k = "exp" /\ ~rec.outbad /\ ~rec.crash /\ e.exit = rec.exit /\ e.nerr = rec.nerr /\ e.out = rec.out
+
 Verdict(rec) ==
-  LET e == CliRun(rec) IN
+  LET e == CliRun(rec, TRUE) IN
   IF e.k = "oom" THEN [id |-> rec.id, v |-> "oom", why |-> e.why]
-  ELSE IF rec.outbad \/ rec.crash THEN [id |-> rec.id, v |-> "mismatch", exp |-> e]
-  ELSE IF e.exit = rec.exit /\ e.nerr = rec.nerr /\ e.out = rec.out THEN [id |-> rec.id, v |-> "agree", n |-> Len(e.out), nerr |-> e.nerr, exit |-> e.exit]
-  ELSE [id |-> rec.id, v |-> "mismatch", exp |-> e]
+  ELSE IF Matches(e, rec) THEN [id |-> rec.id, v |-> "agree", n |-> Len(e.out), nerr |-> e.nerr, exit |-> e.exit]
+  ELSE LET l == CliRun(rec, FALSE) IN
+       IF l # e /\ Matches(l, rec) THEN [id |-> rec.id, v |-> "lenient", exp |-> e]     \* differs from the requirement exactly as the lenient reading does
+       ELSE [id |-> rec.id, v |-> "mismatch", exp |-> e]
 
 VARIABLE done
 Init == done = ndJsonSerialize(IOEnv.VERIF_OUT, [i \in 1..Len(Trace) |-> Verdict(Trace[i])])
